@@ -16,7 +16,7 @@ PROP = dict(
               "Shangrla.RiskLimit.example_exact",
               # style-based sampling (an assertion uses only the cards listing its contest): the sub-population lemma
               "Shangrla.RiskLimit.sum_picks_filterMap", "Shangrla.RiskLimit.hitEv_fuel", "Shangrla.RiskLimit.hitG_filterMap",
-              "Shangrla.RiskLimit.audit_risk_limit_style", "Shangrla.RiskLimit.audit_risk_limit_style_run",
+              "Shangrla.RiskLimit.auditCompleteOpt_some", "Shangrla.RiskLimit.audit_risk_limit_style", "Shangrla.RiskLimit.audit_risk_limit_style_run",
               "Shangrla.RiskLimit.example_style_exact",
               # with C02 (plurality, polling) and C03/C06 (card-level comparison); sampling with replacement
               "Shangrla.RiskLimit.plurality_null", "Shangrla.RiskLimit.plurality_polling_risk_limit",
